@@ -140,7 +140,9 @@ func renderFrags(r *rand.Rand, fs []jfrag, k int) string {
 }
 
 var jsonNumbers = []string{"0", "-0", "1", "-1", "42", "127", "128", "-128", "-129", "255", "256", "32767", "32768", "65535", "65536", "2147483647", "2147483648", "-2147483648", "4294967295",
-	"9223372036854775807", "9223372036854775808", "-9223372036854775808", "18446744073709551615", "1.5", "-2.25", "1e2", "1E+2", "1.5e-3", "0.1", "3.4028235e38", "1e39", "1e400", "123456789012345678901234567890", "0.000001", "2e0", "4e38", "1e100", "1.00000005960464477539062500001", "16777217", "0.1e-44", "-3.5e38"}
+	"9223372036854775807", "9223372036854775808", "-9223372036854775808", "18446744073709551615", "1.5", "-2.25", "1e2", "1E+2", "1.5e-3", "0.1", "3.4028235e38", "1e39", "1e400", "123456789012345678901234567890", "0.000001", "2e0", "4e38", "1e100", "1.00000005960464477539062500001", "16777217", "0.1e-44", "-3.5e38",
+	// more decimals within float64 rounding distance of a float32 midpoint (double rounding)
+	"1.0000000596046447753906250000001", "1.00000017881393432617187499999", "0.50000002980232238769531250001", "16777217.000000000000000001", "3.4028235677973366e38", "3.40282356779733661637539395458142568448e38", "7.006492321624085e-46", "7.0064923216240853546186479164495806564013097093825788587853e-46"}
 
 func randJSONString(r *rand.Rand) string {
 	pool := []string{"", "a", "hello world", "quote\"back\\slash", "tab\tnl\n", "\u00e9\u4e16\u754c", "\u0001ctl", "slash/", "<>&", "\U0001F600", "nul\x00"}
@@ -429,6 +431,7 @@ func famJSON(dir string, seed int64, tier string) {
 		}
 	}
 	w.flush()
+	jsonEmbedded(rep)
 	rep.write(dir)
 }
 
